@@ -73,6 +73,34 @@ add("C08", "fault_enumeration", "model-free tiling monitor over the warn-mode bo
     "seen by the hooked constraint state.",
     "Size fields are recognised from the declared type of the parent event. Known finding D10 (assertion on the encryption flag).", "DESIGN.md 4/C08")
 
+add("C09", "exploration", "differential on schedules: stream decode vs per-message decodes (boundaries and pairing from the reference), plus events_to_objs pairing",
+    "Generated streams (sessions, encryption, failures, same code back to back, ending after a command) and per-file corpus streams; "
+    "the stream's events must equal the concatenation of the individual decodes and objects must pair one per message.",
+    "Message boundaries and the command->response pairing come from the reference interpreter.", "DESIGN.md 4/C09")
+add("C10", "fault_enumeration", "ordering law over the pull log of a counting byte source (look-ahead distance), prefix stability at every cut point, result equality across source kinds, pull logs of the lazy front-ends",
+    "Every cut point of the base inputs (quick: sampled for long inputs), 10 source kinds, hex / swtpm renderings through a counting "
+    "character source and several files through logged read() calls.",
+    "pcapng is documented non-lazy and excluded from the look-ahead clause.", "DESIGN.md 4/C10")
+add("C11", "exploration", "round-trip identities between decoder object, events_to_obj, obj_to_events, re-encoding and the Canonical facade, compared in full",
+    "All structure types (incl. empty structured TPM2Bs, every payload-less union arm), all codes x directions x configurations, corpus.",
+    "Equality is the library's own == plus identity of declared types and value classes.", "DESIGN.md 4/C11")
+add("C12", "exploration", "history checker: every completed decode compared with the first decode of the same arguments under sequential, step-wise interleaved and threaded schedules",
+    "Pools with encrypted parameter areas of different commands; seeded schedulers over live generators; 8 threads with 1us switch "
+    "interval; distinct schedules are counted by hash.",
+    "No shared-memory concurrency exists in the code; schedules are interleavings of independent generators.", "DESIGN.md 4/C12")
+add("C14", "exploration", "row model computed from recorded events compared line by line with the pretty printer and the events printer",
+    "Event streams of well-formed and malformed inputs in both modes; rows, order, byte buffers, bit rows, warnings, indentation "
+    "and value text are compared after stripping colour codes and collapsing blanks.",
+    "Rows of non-byte list parents are optional. TPM_RC bit rows come from attributes() (validated by C18).", "DESIGN.md 4/C14")
+add("C15", "exploration", "differential against the binary decode of the carried bytes for noisy container renderings + reference recognisers over exhaustive small-alphabet strings",
+    "hex / swtpm-log / pcapng / auto on generated streams with layout noise; all strings to length 5 (6) over 10 symbols for the hex "
+    "scanner and to 4 (5) tokens over 14 tokens for the swtpm scanner.",
+    "dpkt is trusted for writing and reading captures. Known finding D14 (Auto and hex text not starting with a pair).", "DESIGN.md 4/C15")
+add("C19", "exploration", "process-level observer: CLI stdout/stderr/status compared with in-process library output and with the reference's strict classification",
+    "convert over every input x output format and type choice (streams, single messages, structures, malformed, stdin, several files), "
+    "refusals, `type` listings, `example` blocks re-decoded.",
+    "Lines compared with colour codes stripped and blanks collapsed.", "DESIGN.md 4/C19")
+
 NOT_YET = "monitor not built yet in this phase; will be claimed once validated on the unchanged tree"
 
 
